@@ -2,7 +2,7 @@
 import re
 
 from analysis import (mirror, Prov, Guards, fmt, fmt_short, walk, roots, short, comparison, find_calls, callee_matches,
-                      must_pass, named_switches, normalised_cmp, cmp_intervals, const_int_of, field_writes, option_edges, canon)
+                      must_pass, named_switches, normalised_cmp, cmp_intervals, const_int_of, field_writes, option_edges, canon, linear)
 from facts import AnchorError, strip_closure
 from harness import Rule, guarded
 from c01 import bool_pass_edges
@@ -123,7 +123,7 @@ def r2(ctx, tables):
 
 def r3(ctx):
     facts = ctx.facts
-    rule = Rule("C09.R3", "finish / timeout remove the query; the result is handed to the caller once; the timeout counts from the first poll", floor=8, engine="A-dom + linear resource")
+    rule = Rule("C09.R3", "finish / timeout remove the query; the result is handed to the caller once; the timeout counts from the first poll; query ids are fresh", floor=9, engine="A-dom + linear resource")
     b = facts.one(re.escape(POOL + "poll"))
     rule.analysed(b)
     p = Prov(b, facts)
@@ -193,6 +193,28 @@ def r3(ctx):
                "getting new peers is never cut off" % "; ".join(bad or ["no stamp found"]), loc=b.loc(b.line))
     rule.check(bool(stamps) and bool(tos) and all(any(b.dominates(s_, tb) for s_ in stamps) for tb, _ in tos), "the stamp precedes the timeout test on every path",
                "poll|start-not-stamped", "QueryPool::poll can test a query's age before its start was stamped (the age is then 0 and the query never times out)", loc=b.loc(b.line))
+    # lookups that run at the same time have different ids: an id that is handed out again while its first holder is still in the pool makes
+    # `queries.insert` overwrite that lookup, whose result is then never handed to its caller
+    ab = facts.one(re.escape(POOL + "add") + "$")
+    rule.analysed(ab)
+    ap = Prov(ab, facts)
+    ids = {}
+    for bi, t in ab.calls():
+        n = short(t.callee() or "")
+        if n.endswith("query_pool::Query::new"):
+            ids["new"] = canon(ap.operand(t.args[0]))
+        if re.search(r"HashMap(::<.*>)?::insert$", n) and fmt_short(ap.operand(t.args[0])).endswith(".queries"):
+            ids["key"] = canon(ap.operand(t.args[1]))
+    ids["ret"] = canon(ap.local(0))
+    sn = ab.local_name(1) or "self"
+    fresh = lambda e: e[0] == "agg" and e[1].endswith("QueryId::QueryId") and fmt_short(dict(e[2])["0"]) == "%s.next_id" % sn
+    nw = [(kind, canon(e)) for wb, wbi, wl, kind, e in field_writes(facts, r"crate::query_pool::QueryPool($|<)", "next_id")]
+    adv = [e for kind, e in nw if kind == "assign"]
+    okid = len(ids) == 3 and all(fresh(v) for v in ids.values()) and len(adv) == 1 and \
+        linear(adv[0], lambda e: "n" if fmt_short(e) == "%s.next_id" % sn else None) == ({"n": 1}, 1)
+    rule.check(okid, "QueryPool::add numbers queries from a counter that only moves forward (id = next_id; next_id += 1), the same id for Query::new, the map key and the caller",
+               "add|id-not-fresh", "QueryPool::add takes the id of a new query from %s (counter written as %s): an id can be handed out while a query with that id is still in the pool, "
+               "which overwrites that query - its result is never delivered" % (sorted({fmt_short(v)[:60] for v in ids.values()}), [fmt_short(e)[:60] for e in adv]), loc=ab.loc(ab.line))
     # which QueryState arms lead to the timeout test
     arms = {}
     for bi, t, e in g.switches():
